@@ -118,17 +118,18 @@ initSetIteration(SetIteration *i, PyObject *s, int useValues)
   i->position = -1;     /* set to 0 only on normal return */
   i->usesValue = 0;     /* assume it's a set or that values aren't iterated */
 
-  /* PyObject_IsInstance() can fail (-1, e.g. out of memory while looking
-     up __class__): that must not be taken for "yes". */
-  is_bucket = PyObject_IsInstance(s, (PyObject *)&BucketType);
-  if (is_bucket == 0)
-    is_set = PyObject_IsInstance(s, (PyObject *)&SetType);
-  if (is_bucket == 0 && is_set == 0)
-    is_btree = PyObject_IsInstance(s, (PyObject *)&BTreeType);
-  if (is_bucket == 0 && is_set == 0 && is_btree == 0)
-    is_treeset = PyObject_IsInstance(s, (PyObject *)&TreeSetType);
-  if (is_bucket < 0 || is_set < 0 || is_btree < 0 || is_treeset < 0)
-    return -1;
+  /* s must really BE one of our types (or a subtype of one), because it is
+     about to be read as one.  isinstance() also says yes to anything whose
+     __class__ claims so -- the pure-Python classes of this package do, and
+     so do proxies -- and such an object does not have our memory layout;
+     it is handled below like any other iterable. */
+  is_bucket = PyObject_TypeCheck(s, &BucketType);
+  if (!is_bucket)
+    is_set = PyObject_TypeCheck(s, &SetType);
+  if (!is_bucket && !is_set)
+    is_btree = PyObject_TypeCheck(s, &BTreeType);
+  if (!is_bucket && !is_set && !is_btree)
+    is_treeset = PyObject_TypeCheck(s, &TreeSetType);
 
   if (is_bucket)
     {
